@@ -269,6 +269,12 @@ def rigid_rules(ctx):
 
 
 def run(ctx):
+    # a re-oriented member / material gives the re-oriented response also on a simulation that was already assembled: no memo keyed by an object whose axes it reads
+    from ..shared import memo_rule as _memo_rule, cached_param_rule as _cached_param_rule
+
+    _scope = ("EasyFEA.FEM.Elems._beam", "EasyFEA.Models.Beam", "EasyFEA.Simulations._beam", "EasyFEA.FEM._group_elem", "EasyFEA.Models.Elastic")
+    _memo_rule(ctx, "R10.6", scope=lambda f: f.module.name.startswith(_scope), min_instances=0)
+    _cached_param_rule(ctx, "R10.7", min_instances=20)
     ctx.level = "other"
     ctx.explanation = (
         "Equality of two solves is not decidable statically. Decided necessary conditions: the block matrix applied to the beam N/B matrices is the "
